@@ -61,16 +61,16 @@ Pool2 == [ Homogeneous |-> {H3(R(1),R(2),R(0), R(0),R(1),R(1), Q(1,10),R(0),R(1)
            Affine |-> {M3(R(2),R(1),R(3), R(-1),R(3),R(0)), M3(Q(1,2),R(2),R(-1), R(0),R(4),Q(3,2))},
            Similarity |-> {M3(Q(6,5),Q(-8,5),R(1), Q(8,5),Q(6,5),R(-2)), M3(R(0),R(-3),R(2), R(3),R(0),R(5))},
            Translation |-> {Tr2(R(2),R(-3)), Tr2(Q(1,2),R(7))},
-           NonUniformScale |-> {Sc2(R(2),Q(1,2)), Sc2(R(3),R(5))},
-           UniformScale |-> {Sc2(Q(1,2),Q(1,2)), Sc2(R(3),R(3))} ]
+           NonUniformScale |-> {Sc2(R(2),Q(1,2)), Sc2(R(3),R(5)), Sc2(R(-1),R(2)), Sc2(Q(-1,2),R(-3))},      \* axis flips are legal scales
+           UniformScale |-> {Sc2(Q(1,2),Q(1,2)), Sc2(R(3),R(3)), Sc2(R(-2),R(-2))} ]
 L3a == <<<<R(1),R(2),R(0)>>,<<R(0),R(1),R(1)>>,<<R(1),R(0),R(2)>>>>         \* det 4
 L3b == <<<<R(2),R(0),R(1)>>,<<R(1),Q(1,2),R(0)>>,<<R(0),R(1),R(1)>>>>       \* det 2
 H4a == << <<R(1),R(2),R(0),R(1)>>, <<R(0),R(1),R(1),R(0)>>, <<R(1),R(0),R(2),R(-1)>>, <<Q(1,10),R(0),R(0),R(1)>> >>
 Pool3 == [ Homogeneous |-> {H4a},
            Affine |-> {M4(L3a, <<R(1),R(-2),R(3)>>), M4(L3b, <<Z0,Q(1,2),R(4)>>)},
            Translation |-> {Tr3(<<R(2),R(-3),Q(1,2)>>)},
-           NonUniformScale |-> {Sc3(<<R(2),Q(1,2),R(3)>>)},
-           UniformScale |-> {Sc3(<<Q(1,2),Q(1,2),Q(1,2)>>), Sc3(<<R(3),R(3),R(3)>>)},
+           NonUniformScale |-> {Sc3(<<R(2),Q(1,2),R(3)>>), Sc3(<<R(2),R(-1),Q(1,2)>>)},
+           UniformScale |-> {Sc3(<<Q(1,2),Q(1,2),Q(1,2)>>), Sc3(<<R(3),R(3),R(3)>>), Sc3(<<Q(-1,2),Q(-1,2),Q(-1,2)>>)},
            Similarity |-> {M4(MScale(R(2), Lin(RotZ(Q(3,5),Q(4,5)))), <<R(1),R(0),R(-1)>>)} ]
 Src2 == << <<R(0),R(0)>>, <<R(3),R(1)>>, <<R(1),R(4)>>, <<R(-2),R(2)>> >>
 Src3 == << <<R(0),R(0),R(1)>>, <<R(3),R(1),R(0)>>, <<R(1),R(4),R(2)>>, <<R(-2),R(2),R(-1)>>, <<R(1),R(-1),R(3)>> >>
@@ -85,7 +85,10 @@ RotVecCases == {[kind |-> "vec", d |-> 3, cls |-> "Rotation", M |-> QuatM(q), q 
 \* alignment variants: from_vector must re-synchronise the target with the new state
 AlCases == {[kind |-> "alvec", d |-> 2, cls |-> c, M |-> m, v |-> AsVec(c, 2, m2, <<>>), src |-> Src2]
               : <<c, m, m2>> \in {<<c, m, m2>> \in (DOMAIN Pool2 \ {"Homogeneous", "NonUniformScale"}) \X (UNION {Pool2[x] : x \in DOMAIN Pool2}) \X (UNION {Pool2[x] : x \in DOMAIN Pool2}) :
-                                   m \in Pool2[c] /\ m2 \in Pool2[c]}}
+                                   m \in Pool2[c] /\ m2 \in Pool2[c]
+                                   \* the scale alignment is fitted from norms: only a positive scale is recovered at construction;
+                                   \* a negative one is reachable through from_vector (m2) only
+                                   /\ (c = "UniformScale" => RLt(Z0, m[1][1]))}}
       \cup {[kind |-> "alvec", d |-> 3, cls |-> "Rotation", M |-> QuatM(q), v |-> Canon(q2), src |-> Src3] : q \in {Q1, Q3}, q2 \in Quats}
 Rot2Cases == {[kind |-> "rot2", cs |-> a, turns |-> k, degrees |-> dg] : a \in Angles, k \in (IF Wide THEN {-2, -1, 0, 1, 3} ELSE {-1, 0, 1}), dg \in BOOLEAN}
 Rot3Cases == {[kind |-> "rot3", axis |-> ax, cs |-> a, turns |-> k, degrees |-> dg] : ax \in {"x","y","z"}, a \in Angles, k \in {0, 1}, dg \in BOOLEAN}
